@@ -65,6 +65,7 @@ static Gran *shadow_get(uintptr_t key)
 
 struct Sim {
     bool concurrent = false;          // worker threads are live
+    bool seq_pass = false;            // the sequential reference pass is running (main thread)
     int nthreads = 0;
     sem_t sem[MAXT + 1];              // [MAXT] = main
     bool done[MAXT];
@@ -137,6 +138,15 @@ static void yield_point(int kind)
 
 static void on_access(uintptr_t a, unsigned size, bool write, void *pc)
 {
+    // the sequential reference pass runs the same operations first, in this process: a library that builds a table or
+    // seeds a generator in static storage on first use does it THERE, so stores to static storage count there too
+    if (g && g->seq_pass && t_in_lib && !t_in_det && write && a >= g->data_lo && a < g->data_hi) {
+        ++t_in_det;
+        g->glob_writes++;
+        if (g->glob_site.empty()) { g->glob_site = sym_of(pc); g->glob_detail = fmt("store of %u bytes to static storage at offset 0x%lx during the sequential reference pass (first use)", size, (unsigned long)(a - g->data_lo)); }
+        --t_in_det;
+        return;
+    }
     if (!g || !g->concurrent || t_id < 0 || !t_in_lib || t_in_det) return;
     if (a >= t_stack_lo && a < t_stack_hi) { yield_point(write ? 1 : 0); return; }
     ++t_in_det;
@@ -597,12 +607,14 @@ struct ThreadsWorld : World {
             if (o.name == "op") { Op q; q.name = "op"; q.a.assign(o.a.begin() + 1, o.a.end()); T[(size_t)(o.u(0) % (uint64_t)nt)]->ops.push_back(q); run.ops_done++; run.task((int64_t)(o.u(0) % (uint64_t)nt)); }
         // 1. sequential reference: each thread's plan alone, one after the other
         std::vector<std::vector<uint64_t>> seq(nt);
+        g->seq_pass = true;
         for (int t = 0; t < nt; ++t) {
             simrng_reset(&T[t]->rng, plan.digest() ^ (uint64_t)(t + 1), SIMRNG_RANDOM);
             simrng_use(&T[t]->rng);
             for (const Op &op : T[t]->ops) seq[t].push_back(run_op(*T[t], op));
             T[t]->results.clear();
         }
+        g->seq_pass = false;
         simrng_use(nullptr);
         // 2. concurrent execution under the seeded scheduler
         for (int t = 0; t <= MAXT; ++t) sem_init(&g->sem[t], 0, 0);
